@@ -24,7 +24,9 @@ Funcs == << [name |-> S("f"), cacheable |-> TRUE, suspend |-> 0, script |-> Tagg
             [name |-> S("g"), cacheable |-> FALSE, suspend |-> 0, script |-> Tagged],
             [name |-> S("h"), cacheable |-> TRUE, suspend |-> 0, script |-> <<[r |-> "fail", msg |-> S("h1")], [r |-> "tagged"]>>],
             \* e: its second invocation fails with an error that is itself a library error value
-            [name |-> S("e"), cacheable |-> FALSE, suspend |-> 0, script |-> <<[r |-> "tagged"], [r |-> "failtype"], [r |-> "tagged"]>>] >>
+            [name |-> S("e"), cacheable |-> FALSE, suspend |-> 0, script |-> <<[r |-> "tagged"], [r |-> "failtype"], [r |-> "tagged"]>>],
+            \* z: cacheable, returns None (a cached None is a cached result like any other)
+            [name |-> S("z"), cacheable |-> TRUE, suspend |-> 0, script |-> <<[r |-> "v", v |-> VNone]>>] >>
 NF == Len(Funcs)
 
 Init == c = <<>>
@@ -55,7 +57,7 @@ Log == Run.gs.calls
 \* all call sites: [ev, r, k]; everything below takes the run (outs, gs) as a parameter so that TLC
 \* evaluates it once per state
 Sites == { [ev |-> e, r |-> r, k |-> k] : e \in 1..NEvals, r \in 1..Len(Groups), k \in 1..MaxCalls }
-Live(run, s) == s.k <= Len(Groups[s.r]) /\ run.outs[s.ev][s.r].o.ok
+Live(run, s) == s.k <= Len(Groups[s.r]) /\ run.outs[s.ev][s.r].o.ok /\ Groups[s.r][s.k].fn # 5      \* (z's results are not tagged)
 SiteFn(s) == Funcs[Groups[s.r][s.k].fn]
 SiteArg(s) == Args[Groups[s.r][s.k].arg]
 SiteRes(run, s) == run.outs[s.ev][s.r].o.v.xs[s.k]           \* [arg, n]
@@ -83,6 +85,9 @@ FailuresNamedNotCachedP(run) ==
   /\ \A e \in 1..NEvals, r \in 1..Len(Groups) : ~run.outs[e][r].o.ok =>
         run.outs[e][r].o \in {FnErr(S("h"), S("h1")), FnErr(S("e"), InvalidTypeText)}
   /\ Cardinality({i \in 1..Len(run.gs.calls) : run.gs.calls[i].f = S("h") /\ run.gs.calls[i].n = 1}) <= 1
+  \* z (cacheable, result None): at most one invocation per evaluation and argument
+  /\ \A i, j \in 1..Len(run.gs.calls) : (i # j /\ run.gs.calls[i].f = S("z") /\ run.gs.calls[j].f = S("z") /\ run.gs.calls[i].ev = run.gs.calls[j].ev)
+        => run.gs.calls[i].arg # run.gs.calls[j].arg
 MachineRefinesDenP(run) ==
   LET d1 == DenRuleSet(RS, Input, 1, [j \in 1..NF |-> 0]) IN
   /\ run.outs[1] = d1.outcomes
